@@ -3,6 +3,7 @@ import PyAirtouch.Model.Crc
 import PyAirtouch.Model.SockValidate
 import PyAirtouch.Model.Heartbeat
 import PyAirtouch.Model.Codecs
+import PyAirtouch.Model.CodecsWF
 /-! Line-protocol driver over the *model* (Gen + Model). One request per line, one answer per line. -/
 open PyAirtouch PyAirtouch.Util PyAirtouch.Model
 
@@ -27,6 +28,10 @@ def answerPure (ws : List String) : String :=
   | ["dec", g, key, len, h] =>
     match g.toNat?, (len.splitOn ":").mapM String.toNat?, parseHex h with
     | some g, some len, some bs => Model.Codecs.decCmd g key len bs
+    | _, _, _ => "bad-op"
+  | ["wf", g, key, len, h] =>
+    match g.toNat?, (len.splitOn ":").mapM String.toNat?, parseHex h with
+    | some g, some len, some bs => Model.Codecs.wfCmd g key len bs
     | _, _, _ => "bad-op"
   | ["reenc", g, key, len, h] =>
     match g.toNat?, (len.splitOn ":").mapM String.toNat?, parseHex h with
